@@ -288,6 +288,10 @@ def run_case(ctx, repo, case):
         same(empty + a, a, "identity")
         z = a + (-1 * a)
         ctx.ev("law")
+        if (z == empty) is True and hash(z) != hash(empty):
+            ctx.violation("law.inverse-hash", "d + (-1*d) equals the empty "
+                          "duration but hashes differently for %r" % (
+                              case["durs"][0],))
         if z or (z == empty) is not True or key(z) != (0, 0, 0):
             ctx.violation("law.inverse", "d + (-1*d) is not empty for %r: "
                           "%r" % (case["durs"][0], R.dur_key(z)))
@@ -334,6 +338,9 @@ def run_case(ctx, repo, case):
 
 
 RESPELLED = [
+    [{"years": 1, "months": -12}, {}, {"years": 2, "months": -24},
+     {"years": -1, "months": 12, "days": 2}, {"days": 2}],
+    [{"weeks": 3}, {"weeks": -3}, {"days": 21}, {"weeks": 0}],
     [{"weeks": 1}, {"days": 7}, {"hours": 168}, {"seconds": 604800},
      {"minutes": 10080}],
     [{"days": 1, "hours": -24}, {}, {"years": 0}, {"weeks": 0},
